@@ -566,6 +566,17 @@ def c05_executions(tier, seed):
                           [('recv', octets, {'note': 'clockless'}), ('idle',)]))
         metas.append({'mode': 'forward', 'total': total, 'mtu': mtu, 'case': 'clockless source', 'crc': crc,
                       'lifetime': lifetime})
+    # a locally built bundle whose blocks carry no block numbers yet (the agent assigns them)
+    for (k, (total, crc, ename)) in enumerate(itertools.product((300, 1000), (0, 2), ('none', 'hop'))):
+        ext_u = [hop_count(2, 30, 1)] if ename == 'hop' else []
+        octets = mk(src=NODE + 'app', dest='dtn://other/svc', rpt='dtn:none', flags=0, crc=crc, ext=ext_u,
+                    pay=payload(total, 55 + k), ts=(9500 + k, 1))
+        mtu = envelope('dtn://other/svc', NODE + 'app', 0, crc, ext_u, total, total - 1) + 50 + 13 * k
+        traces.append(run({'rx_routes': [('dtn://other/', 'forward')], 'tx_routes': [('dtn://other/', 'dtn://other/', mtu)]},
+                          [('send', octets, {'expect_error': True, 'unnumbered': True, 'unfinished_crc': bool(k % 2)}),
+                           ('idle',)]))
+        metas.append({'mode': 'send', 'total': total, 'mtu': mtu, 'case': 'blocks not numbered by the application',
+                      'crc': crc, 'ext': ename})
     # an application that keeps one container and replaces the bundle in it between requests: bundles of the same
     # block layout and different sizes one after the other (fits / needs fragments, in every order of two or three)
     ext_r = [hop_count(2, 30, 1)]
